@@ -36,7 +36,7 @@ ASSUMPTIONS = [
     "(boards wrap around); other sizes have no wrap-around and a chip is only "
     "judged when its board's Ethernet chip lies inside the machine",
 ]
-FLOORS = {"eth_enumeration_abandoned": 2000, "eth_list": 1000, "local_eth": 10000, "chip_coord": 10000,
+FLOORS = {"root_coordinate_left_to_default": 500, "eth_enumeration_abandoned": 2000, "eth_list": 1000, "local_eth": 10000, "chip_coord": 10000,
           "fpga_link": 50000, "std_dims": 3000, "fpga_ids_distinct": 1}
 SHARDS = {"quick": 16, "thorough": 64}
 
@@ -117,7 +117,8 @@ def run(case, ctx):
             nested = [(tuple(a), tuple(b))
                       for a in g.spinn5_eth_coords(w, h, rx, ry)
                       for b in g.spinn5_eth_coords(w, h, rx, ry)]
-        lst = [tuple(c) for c in g.spinn5_eth_coords(w, h, rx, ry)]
+        lst = [tuple(c) for c in rooted(ctx, g.spinn5_eth_coords, (w, h),
+                                        rx, ry, rx + ry + w)]
         ctx.hit("eth_list")
         if nested is not None:
             check(nested == [(a, b) for a in lst for b in lst],
@@ -146,7 +147,7 @@ def run(case, ctx):
         for x in range(w):
             for y in range(h):
                 (ex, ey), (bx, by) = board_of(x, y, rx, ry)
-                cc = g.spinn5_chip_coord(x, y, rx, ry)
+                cc = rooted(ctx, g.spinn5_chip_coord, (x, y), rx, ry, x + y)
                 ctx.hit("chip_coord")
                 check(tuple(cc) == (bx, by), "chip-coord", "got %r want %r" %
                       (cc, (bx, by)), chip=(x, y), **where)
@@ -157,7 +158,8 @@ def run(case, ctx):
                 else:
                     e = None
                 if e is not None:
-                    got = g.spinn5_local_eth_coord(x, y, w, h, rx, ry)
+                    got = rooted(ctx, g.spinn5_local_eth_coord,
+                                 (x, y, w, h), rx, ry, x + 2 * y)
                     ctx.hit("local_eth")
                     check(tuple(got) == e, "local-eth", "got %r want %r" %
                           (got, e), chip=(x, y), **where)
@@ -165,7 +167,8 @@ def run(case, ctx):
                 for l in links:
                     dx, dy = VEC[int(l)]
                     leaves = (bx + dx, by + dy) not in SHAPE
-                    f = g.spinn5_fpga_link(x, y, l, rx, ry)
+                    f = rooted(ctx, g.spinn5_fpga_link, (x, y, l), rx, ry,
+                               x + y + int(l))
                     ctx.hit("fpga_link")
                     check((f is not None) == leaves, "fpga-link",
                           "link %r of on-board chip %r: got %r, leaves=%r" %
@@ -175,6 +178,25 @@ def run(case, ctx):
         ctx.mark_nontrivial()
     ctx.note(dict(max_ethernet_chips=most, torus=torus))
     return "ok"
+
+
+def rooted(ctx, fn, fixed, rx, ry, salt):
+    """call fn(*fixed, root_x, root_y) in one of the documented ways of
+    naming the root chip: both by position, both by keyword, and - the
+    defaults being 0 - only the coordinate that is not 0, or neither"""
+    form = salt % 3
+    if form == 1:
+        return fn(*fixed, root_x=rx, root_y=ry)
+    if form == 2:
+        kw = {}
+        if rx:
+            kw["root_x"] = rx
+        if ry:
+            kw["root_y"] = ry
+        if len(kw) < 2:
+            ctx.hit("root_coordinate_left_to_default")
+        return fn(*fixed, **kw)
+    return fn(*fixed, rx, ry)
 
 
 def tables_unchanged(ctx, g):
